@@ -220,6 +220,41 @@ def run_sentinels(rec):
     b.cleanup()
 
 
+REENTRANT = r'''
+start = A | B | C
+A = [Head, Mid, "!"]
+B = [Head, Mid, "?"]
+C = [Head, Mid, Mid?]
+Head = /h+/
+Mid = /\[[a-z]*\]/ |> `lambda s: Inner.parse(s[1:-1])`
+Inner = Letter* |> `lambda v: ''.join(v).upper()`
+Letter = /[a-z]/
+'''
+
+
+def run_reentrant(rec):
+    """Inline Python that re-enters the parser in the middle of a parse: the outer call's memo must
+    survive the nested call (rules completed before it are not evaluated again afterwards)."""
+    r = observe.compile_grammar(REENTRANT)
+    if r[0] != 'ok':
+        rec.violation('reentrant-grammar-error', 'Grammar()', dict(kind='reentrant'), 'module', r)
+        return
+    g = r[1]
+    probe = probes.RuleEvalProbe(g)
+    nrules = len(probe.codes)
+    probe.start()
+    try:
+        for t in ['h[]', 'hh[ab]', 'hh[ab]?', 'h[a]!', 'hhh[abc][de]', 'h[a][b]?', 'h[', 'hh[ab]x', '[a]']:
+            o = observe.observe(g, t)
+            rec.case()
+            rec.nontrivial(('reentrant', t))
+            rec.count('reentrant_parses')
+            check_calls(rec, probe, nrules, len(t), dict(kind='reentrant', text_repr=repr(t), desc=REENTRANT), 'reentrant')
+    finally:
+        rec.count('run_calls_wrapped', probe.run_wrapped)
+        probe.stop()
+
+
 def run_random(rec, n, maxlen):
     for i in range(n):
         if rec.out_of_time():
@@ -341,6 +376,9 @@ def run_shard(rec):
         run_sentinels(rec)
     idx += 1
     if rec.mine(idx):
+        run_reentrant(rec)
+    idx += 1
+    if rec.mine(idx):
         run_metaparser(rec, quick)
     idx += 1
     if rec.mine(idx):
@@ -352,6 +390,8 @@ def replay(rec, rep):
     case = rep['case']
     if case.get('sentinel'):
         return run_sentinels(rec)
+    if case.get('kind') == 'reentrant':
+        return run_reentrant(rec)
     if case.get('kind') in ('meta-probe',):
         return run_metaparser(rec, True)
     if case.get('kind') == 'excel-probe':
